@@ -7,7 +7,10 @@ oracle : the multi-path differential.  Generated template sets are run, in one w
          each through render, render_unicode, render_context, get_def(n).render() for every def, and (default
          options, string data) the mako-render command (in-process cmdline() and the real executable).  Outputs,
          `source`, `code` (modulo the lines listed in CODE_MAY_DIFFER), has_def/list_defs/get_def must agree between
-         all paths and all seeds.  A second family puts several templates whose URIs differ only in non-word
+         all paths and all seeds.  A history family runs multi-step sequences in ONE process (load through a module
+         directory, edit the source, re-get, a second lookup with another root sharing the module directory, a fresh
+         lookup) and requires after every step that the template just obtained answers source/code/defs/output for its
+         own text (code = the module file on disk = the in-memory compile of the same text).  A second family puts several templates whose URIs differ only in non-word
          characters / spelling into ONE lookup and asks every template for its own source and code.  No Lean involved.
 corr   : the Lean models of lean/MakoModel/Paths8 against the real code, op-level: module_id on every code point and
          on random URIs, Template.__init__'s path selection, _kwargs_for_callable on random signatures, the ModuleInfo
@@ -1590,6 +1593,164 @@ def oracle_lookup(ctx, base):
     ctx.sample({"stream": "oracle.one_lookup", "uris": ["/a-b.html", "/a_b.html"], "asked": "source, code, output, list_defs of each"})
 
 
+# =========================================================================================== oracle: histories in ONE process
+
+def hist_text(k):
+    return "v%d \u00e9 ${1+%d}<%%def name='d%d()'>x%d</%%def>" % (k, k, k, k)
+
+
+def run_history(ops, base, tag):
+    """ops: 'load' (get through lookup A), 'edit' (rewrite the source with a newer mtime), 'fresh' (a NEW lookup on the
+    same root and module directory), 'other' (a second lookup with ANOTHER root sharing the module directory, its own
+    newer source for the same URI), 'again' (read everything once more without any change).  After every step the
+    template just obtained must answer source/code/defs/output for ITS OWN text: .source = the text on disk, .code =
+    the current text of its module file = (modulo CODE_MAY_DIFFER) the module of the same text compiled in memory.
+    -> None or a description of the first failure"""
+    from mako.template import Template
+    from mako.lookup import TemplateLookup
+    d = os.path.join(base, "h_" + tag)
+    ra, rb, md = os.path.join(d, "a"), os.path.join(d, "b"), os.path.join(d, "mods")
+    for x in (ra, rb):
+        os.makedirs(x, exist_ok=True)
+    ver = [0]
+    future = [int(time.time())]
+
+    def write(root):
+        ver[0] += 1
+        future[0] += 3                                     # strictly newer, whole seconds, ahead of the module file
+        p = os.path.join(root, "t.html")
+        with open(p, "wb") as f:
+            f.write(hist_text(ver[0]).encode("utf-8"))
+        os.utime(p, (future[0], future[0]))
+        return hist_text(ver[0])
+    texts = {ra: write(ra), rb: None}
+    lk = {ra: TemplateLookup([ra], module_directory=md), rb: None}
+    keep = []
+    cur = None
+    for i, op in enumerate(ops):
+        if op == "edit":
+            texts[ra] = write(ra)
+            root = ra
+        elif op == "fresh":
+            lk[ra] = TemplateLookup([ra], module_directory=md)
+            root = ra
+        elif op == "other":
+            texts[rb] = write(rb)
+            lk[rb] = TemplateLookup([rb], module_directory=md)
+            root = rb
+        elif op == "again" and cur is not None:
+            root = cur
+        else:
+            root = ra
+        cur = root
+        t = lk[root].get_template("/t.html")
+        keep.append(t)
+        want = texts[root]
+        k = int(want[1:want.index(" ")])
+        where = "step %d (%s)" % (i, op)
+        if t.source != want:
+            return "%s: .source is %r, the template's text is %r" % (where, t.source[:40], want[:40])
+        mp = os.path.join(md, "t.html.py")
+        with open(mp, "rb") as f:
+            disk = f.read().decode("utf-8")
+        code = t.code
+        if code != disk:
+            m = re.search(r"__M_writer\('(v\d+)", code)
+            return "%s: .code is not the text of the module file on disk (it is the module of %s, the file holds the module of v%d)" % (
+                where, m.group(1) if m else "?", k)
+        # (another URI: a second live template of the SAME uri would take over the ModuleInfo registry entry - F5)
+        mem = Template(want, uri="/in-memory-%s.html" % tag, filename=os.path.join(root, "t.html"))
+        a, _, la = norm_code(mem.code, loose=True)
+        b, mb, lb = norm_code(code, loose=True)
+        if a != b or linemap_relation(la, False, lb, mb):
+            return "%s: .code is not the module of the template's own text (v%d)" % (where, k)
+        if t.render_unicode() != "v%d \u00e9 %d" % (k, 1 + k) or t.list_defs() != ["body", "d%d" % k] or not t.has_def("d%d" % k):
+            return "%s: output/defs are not those of v%d: %r %r" % (where, k, t.render_unicode(), t.list_defs())
+        if t.get_def("d%d" % k).code != code or t.get_def("d%d" % k).source != want:
+            return "%s: get_def().source/code differ from the template's" % where
+    return None
+
+
+def oracle_histories(ctx, base):
+    from harness.common import ddmin
+    st = ctx.stream("oracle.histories", "oracle")
+    n = 60 if ctx.quick else 800
+    fixed = [["load", "edit"], ["load", "other"], ["load", "again", "edit", "again"], ["load", "fresh", "edit", "other", "edit"]]
+    reported = False
+    for k in range(n):
+        ops = fixed[k] if k < len(fixed) else ["load"] + [ctx.rng.choice(["edit", "edit", "other", "fresh", "again", "load"])
+                                                          for _ in range(ctx.rng.randint(1, 5))]
+        st["cases"] += len(ops)
+        for op in ops:
+            ctx.branch("history:" + op)
+        bad = run_history(ops, base, "r%d" % k)
+        if bad and not reported:
+            reported = True
+            cnt = [0]
+
+            def fails(sub):
+                cnt[0] += 1
+                try:
+                    return bool(sub) and run_history(sub, base, "s%d_%d" % (k, cnt[0])) is not None
+                except Exception:       # noqa: BLE001
+                    return False
+            small = ddmin(ops, fails, 60)
+            detail = run_history(small, base, "w%d" % k) or bad
+            ctx.violation("module-file-code-stale" if ".code" in detail else "history-own-text",
+                          {"input": " ".join(small), "history": small}, detail, "oracle.histories")
+    ctx.sample({"stream": "oracle.histories", "history": fixed[3], "checked after every step": "source, code vs module file on disk, "
+                "code vs in-memory compile of the same text, output, list_defs/has_def, get_def().source/code"})
+    # ---- corr: ModuleInfo.code is a function of the file content at access time (op-level, model `CodeRef.code`)
+    from mako.lookup import TemplateLookup
+    from mako.template import Template
+    drv = ctx.driver()
+    stc = ctx.stream("corr.code_reads_file")
+    d = os.path.join(base, "h_corr")
+    os.makedirs(os.path.join(d, "t"), exist_ok=True)
+    with open(os.path.join(d, "t", "t.html"), "w") as f:
+        f.write("x")
+    tm = TemplateLookup([os.path.join(d, "t")], module_directory=os.path.join(d, "m")).get_template("/t.html")
+    tt = Template("x", uri="/text-path.html")
+    tt_code = tt.code
+    mp = os.path.join(d, "m", "t.html.py")
+    other = os.path.join(d, "m", "other.py")
+    reqs, wants = [], []
+    for _ in range(40 if ctx.quick else 400):
+        ops, got_m, got_t = [], [], []
+        with open(mp, "rb") as f:
+            cur = f.read().decode("utf-8")
+        ops.append("w:%s:%s" % (enc(mp), enc(cur)))
+        for _ in range(ctx.rng.randint(1, 6)):
+            r = ctx.rng.random()
+            if r < 0.4:
+                txt = "# -*- coding:utf-8 -*-\n# rewritten %d \u00e9\n" % ctx.rng.randrange(10 ** 6)
+                with open(mp, "wb") as f:
+                    f.write(txt.encode("utf-8"))
+                ops.append("w:%s:%s" % (enc(mp), enc(txt)))
+            elif r < 0.55:
+                with open(other, "w") as f:
+                    f.write("# other\n")
+                ops.append("w:%s:%s" % (enc(other), enc("# other\n")))
+            else:
+                ops.append("q")
+                got_m.append(tm.code)
+                got_t.append(tt.code)
+        ops.append("q")
+        got_m.append(tm.code)
+        got_t.append(tt.code)
+        reqs.append("p8 codehist none %s %s" % (enc(mp), " ".join(ops)))
+        wants.append(got_m)
+        reqs.append("p8 codehist %s none %s" % (enc(tt_code), " ".join(ops)))
+        wants.append(got_t)
+    for rq, o, w in zip(reqs, drv.ask_many(reqs), wants):
+        stc["cases"] += 1
+        model = [None if x == "none" else dec(x) for x in o.split(" ")]
+        if model != w:
+            i = next((j for j, (a, b) in enumerate(zip(model, w)) if a != b), 0)
+            ctx.disagree("corr.code_reads_file", {"input": "read #%d of a module-file template's .code after rewrites of its module file" % i},
+                         (model[i] or "")[-60:], (w[i] or "")[-60:])
+
+
 # =========================================================================================== entry points
 
 def run(ctx):
@@ -1604,7 +1765,10 @@ def run(ctx):
             try:
                 oracle_lookup(ctx, base)
             finally:
-                oracle_differential(ctx, base)
+                try:
+                    oracle_histories(ctx, base)
+                finally:
+                    oracle_differential(ctx, base)
         ctx.notes.append({"code_may_differ_between_paths": CODE_MAY_DIFFER})
         for k in sorted(ctx.branches):
             if k.startswith(("path:", "decl", "outcome:", "select:", "construct:")):
@@ -1620,6 +1784,15 @@ def replay(ctx, data):
     print("replaying", json.dumps(case, ensure_ascii=False)[:1000])
     base = tempfile.mkdtemp(prefix="c08r_")
     try:
+        if isinstance(case, dict) and "history" in case:
+            bad = run_history(case["history"], base, "replay")
+            print("impl :", bad or "every step answers for its own text")
+            try:
+                print("model:", ctx.driver().ask("p8 codehist none 47,109 w:47,109:49 q w:47,109:50 q"),
+                      "(CodeRef.code after writing '1' then '2' to the module file: the current content each time)")
+            except Exception as e:        # noqa: BLE001
+                print("model not available:", e)
+            return bad is None
         if isinstance(case, dict) and isinstance(case.get("input"), list) and case.get("config"):
             from mako.lookup import TemplateLookup
             uris = case["input"]
